@@ -174,7 +174,12 @@ Proof. intros x y c c' H. unfold prune_fleq in H.
   destruct (fv_set_max x (fv_max y (fst c)) c) as [c1|] eqn:E; [|discriminate].
   eapply store_ile_trans. eapply (proj1 (fv_set_isafe y)); eauto. eapply (proj2 (fv_set_isafe x)); eauto. Qed.
 Lemma prune_flt_isafe : forall x y, isafe (prune_flt x y).
-Proof. intros x y c c' H. unfold prune_flt in H. destruct (int_below_float_var x y (fst c)); eapply prune_fleq_isafe; eauto. Qed.
+Proof. intros x y c c' H. unfold prune_flt in H. destruct (int_below_float_var x y (fst c)). eapply prune_fleq_isafe; eauto.
+  destruct (int_below_float_const x y (fst c)).
+  { destruct (fge _ _); [|discriminate]. eapply (proj2 (fv_set_isafe x)); eauto. }
+  destruct (float_const_below_int x y (fst c)).
+  { destruct (fle _ _); [|discriminate]. eapply (proj1 (fv_set_isafe y)); eauto. }
+  eapply prune_fleq_isafe; eauto. Qed.
 Lemma prune_feq_isafe : forall x y, isafe (prune_feq x y).
 Proof. intros x y c c' H. unfold prune_feq in H.
   destruct (fv_set_min x _ c) as [c1|] eqn:E1; [|discriminate].
@@ -498,6 +503,28 @@ Lemma mixed_strict_ok :
   prune_flt_prefix (FVar 1) (FVar 0) (w_mix_store, []) = None /\
   obs_ctx (prune_flt (FVar 1) (FVar 0) (w_mix_store, [])) = Some ([[1; 0x4014000000abcc77; 0x4016000000000000; 0x3e45798ee2308c3a]; [0; 5]], [0%nat]).
 Proof. vm_compute. split; reflexivity. Qed.
+
+(* -- (e0') strict comparison int variable < float CONSTANT.  BETWEEN the two repairs (prune_flt_prefix_const: x.next() <= c, the
+      integer successor against the constant) x < 6.625 rejected x = 6 and, the successor of a float constant being the constant
+      itself, 2.0 < x accepted x = 2; AFTER (prune_flt) x in 1..6, x < 6.625 keeps 6; x < 6.0 gives x <= 5; 2.0 < x gives x >= 3;
+      2.25 < x gives x >= 3; x in {-1,0}, x < -0.5 gives x = -1 (the space failed before); no i32 below -3e9: fail;
+      NaN: fail; +inf prunes nothing *)
+Definition w_six : fstore := [VI [1; 2; 3; 4; 5; 6]].
+Lemma strict_int_const_ok :
+  prune_flt_prefix_const (FVar 0) (FConst (VlF (of_bits 0x401a800000000000))) ([VI [6]], []) = None /\
+  prune_flt_prefix_const (FConst (VlF (of_bits 0x4000000000000000))) (FVar 0) ([VI [2]], []) = Some ([VI [2]], []) /\
+  prune_flt_prefix_const (FVar 0) (FConst (VlF (of_bits 0xbfe0000000000000))) ([VI [-1; 0]], []) = None /\
+  prune_flt (FVar 0) (FConst (VlF (of_bits 0x401a800000000000))) (w_six, []) = Some (w_six, []) /\
+  prune_flt (FVar 0) (FConst (VlF (of_bits 0x401a800000000000))) ([VI [6]], []) = Some ([VI [6]], []) /\
+  prune_flt (FVar 0) (FConst (VlF (of_bits 0x4018000000000000))) (w_six, []) = Some ([VI [1; 2; 3; 4; 5]], [0%nat]) /\
+  prune_flt (FConst (VlF (of_bits 0x4000000000000000))) (FVar 0) (w_six, []) = Some ([VI [3; 4; 5; 6]], [0%nat]) /\
+  prune_flt (FConst (VlF (of_bits 0x4000000000000000))) (FVar 0) ([VI [2]], []) = None /\
+  prune_flt (FConst (VlF (of_bits 0x4002000000000000))) (FVar 0) (w_six, []) = Some ([VI [3; 4; 5; 6]], [0%nat]) /\
+  prune_flt (FVar 0) (FConst (VlF (of_bits 0xbfe0000000000000))) ([VI [-1; 0]], []) = Some ([VI [-1]], [0%nat]) /\
+  prune_flt (FVar 0) (FConst (VlF (of_bits 0xc1e65a0bc0000000))) (w_six, []) = None /\
+  prune_flt (FVar 0) (FConst (VlF (of_bits 0x7ff8000000000000))) (w_six, []) = None /\
+  prune_flt (FVar 0) (FConst (VlF (of_bits 0x7ff0000000000000))) (w_six, []) = Some (w_six, []).
+Proof. vm_compute. repeat split; reflexivity. Qed.
 
 (* -- (e) strict comparison of a float variable with an integer literal: x > 2 is lowered (LinearInt, op Gt) to IntLinLe([-1],[x],-3),
       i.e. x >= 3: on x in [0, 2.5] the space fails although 2.25 satisfies x > 2 with a margin of 25 steps of 0.01 *)
